@@ -83,6 +83,17 @@ theorem carries_of_ruleOk (s : Sig) (b : Dict) (ap : APat) (pt : Pat)
     rw [ha _ h1, hb _ h2]
     cases ch <;> rfl
 
+/-- generic form: for ANY table of method bodies whose symbolic requests obey the signature rule -/
+theorem wireB_carries_resolved (body : String → String → List Op)
+    (hrule : ∀ s ∈ sigs, (rulesOfB body sigs s).all (ruleOk s) = true)
+    (s : Sig) (hs : s ∈ sigs) (b : Dict) (stack : List Dict) :
+    ∀ pt ∈ wireB body sigs s.cls wireFuel s.name b stack, Carries s b pt := by
+  intro pt hpt
+  obtain ⟨ap, hap, hd⟩ := absWireB_sound body sigs s.cls wireFuel s.name env0 b b stack (envSound_env0 b) pt hpt
+  have hall := hrule s hs
+  rw [List.all_eq_true] at hall
+  exact carries_of_ruleOk s b ap pt (hall ap hap) hd
+
 /-- **The wire carries the resolved values.**  For every decorated method of the generated table,
 every argument passing (positional / keyword / context / default, any mix), every context stack:
 each request pattern an accepted call may put on the wire is addressed to the chip (x, y) bound for
@@ -90,12 +101,8 @@ the call - (255, 255) for the methods without chip coordinates - carries the cal
 where the command has one, resp. goes to the call's (cabinet, frame, board) with the boards' mask. -/
 theorem wire_carries_resolved (s : Sig) (hs : s ∈ sigs) (pos : List Val) (kw : Dict) (stack : List Dict)
     (nk b : Dict) (hr : resolve s pos.length kw stack = .ok nk) (hb : bind s pos nk = .ok b) :
-    ∀ pt ∈ wire sigs s.cls wireFuel s.name b stack, Carries s b pt := by
-  intro pt hpt
-  obtain ⟨ap, hap, hd⟩ := absWire_sound sigs s.cls wireFuel s.name env0 b b stack (envSound_env0 b) pt hpt
-  have hall := rules_obey_signature_rule s hs
-  rw [List.all_eq_true] at hall
-  exact carries_of_ruleOk s b ap pt (hall ap hap) hd
+    ∀ pt ∈ wire sigs s.cls wireFuel s.name b stack, Carries s b pt :=
+  wireB_carries_resolved bodyOf rules_obey_signature_rule s hs b stack
 
 /-- `callRes` form: the patterns of an accepted call reported by the model (and used as the wire
 oracle on the implementation's datagrams) all carry the bound values -/
@@ -148,18 +155,18 @@ theorem bound_is_resolved (s : Sig) (pos : List Val) (nk b : Dict) (hb : bind s 
 
 /-! ## what can depend on the passing style -/
 
-/-- **(x, y) and the application id never depend on how the arguments were passed.**  Every request
-pattern of an accepted call has x, y (and the application id, if any) equal to the value of an
-expression over the call's bound parameters, taken from a list (`rulesOf`) that is computed from
-the rules alone - without the stack, the passing style or any value. -/
-theorem chip_independent_of_passing_style (s : Sig) (hs : s ∈ sigs) (b : Dict) (stack : List Dict) :
-    ∀ pt ∈ wire sigs s.cls wireFuel s.name b stack,
-      ∃ ap ∈ rulesOf sigs s, ∃ ex ey, ap.a = some ex ∧ ap.b = some ey ∧
+/-- generic form of `chip_independent_of_passing_style` -/
+theorem chipB_independent_of_passing_style (body : String → String → List Op)
+    (hknown : ∀ s ∈ sigs, (rulesOfB body sigs s).all
+      (fun ap => ap.a.isSome && ap.b.isSome && ap.extra != some none) = true)
+    (s : Sig) (hs : s ∈ sigs) (b : Dict) (stack : List Dict) :
+    ∀ pt ∈ wireB body sigs s.cls wireFuel s.name b stack,
+      ∃ ap ∈ rulesOfB body sigs s, ∃ ex ey, ap.a = some ex ∧ ap.b = some ey ∧
         pt.a = evalEx b ex ∧ pt.b = evalEx b ey ∧
         (pt.extra = none ∨ ∃ ea, ap.extra = some (some ea) ∧ pt.extra = some (evalEx b ea)) := by
   intro pt hpt
-  obtain ⟨ap, hap, hd⟩ := absWire_sound sigs s.cls wireFuel s.name env0 b b stack (envSound_env0 b) pt hpt
-  have hall := rules_chip_known s hs
+  obtain ⟨ap, hap, hd⟩ := absWireB_sound body sigs s.cls wireFuel s.name env0 b b stack (envSound_env0 b) pt hpt
+  have hall := hknown s hs
   rw [List.all_eq_true] at hall
   have hk := hall ap hap
   simp only [Bool.and_eq_true, Option.isSome_iff_exists, bne_iff_ne, ne_eq] at hk
@@ -172,6 +179,17 @@ theorem chip_independent_of_passing_style (s : Sig) (hs : s ∈ sigs) (b : Dict)
     cases oe with
     | none => exact absurd hex hne
     | some ea => exact Or.inr ⟨ea, rfl, hx1 ea hex⟩
+
+/-- **(x, y) and the application id never depend on how the arguments were passed.**  Every request
+pattern of an accepted call has x, y (and the application id, if any) equal to the value of an
+expression over the call's bound parameters, taken from a list (`rulesOf`) that is computed from
+the rules alone - without the stack, the passing style or any value. -/
+theorem chip_independent_of_passing_style (s : Sig) (hs : s ∈ sigs) (b : Dict) (stack : List Dict) :
+    ∀ pt ∈ wire sigs s.cls wireFuel s.name b stack,
+      ∃ ap ∈ rulesOf sigs s, ∃ ex ey, ap.a = some ex ∧ ap.b = some ey ∧
+        pt.a = evalEx b ex ∧ pt.b = evalEx b ey ∧
+        (pt.extra = none ∨ ∃ ea, ap.extra = some (some ea) ∧ pt.extra = some (evalEx b ea)) :=
+  chipB_independent_of_passing_style bodyOf rules_chip_known s hs b stack
 
 /-- **Exactly these methods leave the core of some inner request to the context stack** (an inner
 decorated call omits `p`, so it is filled from the innermost context that sets `p`, else 0): -/
@@ -191,25 +209,32 @@ theorem core_style_dependent_methods :
        "get_iobuf_bytes"] := by
   decide
 
-/-- for every other method the whole destination (x, y, core, application id / board, mask) of every
-request is a function of the call's bound arguments alone -/
-theorem core_independent_of_passing_style (s : Sig) (hs : s ∈ sigs) (hcore : coreFromContext sigs s = false)
-    (b : Dict) (stack : List Dict) :
-    ∀ pt ∈ wire sigs s.cls wireFuel s.name b stack,
-      ∃ ap ∈ rulesOf sigs s, ∃ ec, ap.c = some ec ∧ pt.c = evalEx b ec := by
+/-- generic form of `core_independent_of_passing_style` -/
+theorem coreB_independent_of_passing_style (body : String → String → List Op)
+    (s : Sig) (hcore : coreFromContextB body sigs s = false) (b : Dict) (stack : List Dict) :
+    ∀ pt ∈ wireB body sigs s.cls wireFuel s.name b stack,
+      ∃ ap ∈ rulesOfB body sigs s, ∃ ec, ap.c = some ec ∧ pt.c = evalEx b ec := by
   intro pt hpt
-  obtain ⟨ap, hap, hd⟩ := absWire_sound sigs s.cls wireFuel s.name env0 b b stack (envSound_env0 b) pt hpt
-  unfold coreFromContext at hcore
+  obtain ⟨ap, hap, hd⟩ := absWireB_sound body sigs s.cls wireFuel s.name env0 b b stack (envSound_env0 b) pt hpt
+  unfold coreFromContextB at hcore
   have : ap.c.isNone = false := by
     cases h : ap.c.isNone with
     | false => rfl
     | true =>
-      have : (rulesOf sigs s).any (fun ap => ap.c.isNone) = true := List.any_eq_true.mpr ⟨ap, hap, h⟩
+      have : (rulesOfB body sigs s).any (fun ap => ap.c.isNone) = true := List.any_eq_true.mpr ⟨ap, hap, h⟩
       rw [this] at hcore
       cases hcore
   cases hc : ap.c with
   | none => simp [hc] at this
   | some ec => exact ⟨ap, hap, ec, hc, hd.2.2.2.1 ec hc⟩
+
+/-- for every other method the whole destination (x, y, core, application id / board, mask) of every
+request is a function of the call's bound arguments alone -/
+theorem core_independent_of_passing_style (s : Sig) (hs : s ∈ sigs) (hcore : coreFromContext sigs s = false)
+    (b : Dict) (stack : List Dict) :
+    ∀ pt ∈ wire sigs s.cls wireFuel s.name b stack,
+      ∃ ap ∈ rulesOf sigs s, ∃ ec, ap.c = some ec ∧ pt.c = evalEx b ec :=
+  coreB_independent_of_passing_style bodyOf s hcore b stack
 
 /-! ## worked instances (non-vacuity, and the observation itself) -/
 
